@@ -73,7 +73,7 @@ def run(ctx):
     ctx.coverage["exhaustive"] = True
     for i in range(0, len(cases), 1500):
         judge(ctx, cases[i:i + 1500], "C11")
-    ctx.coverage["rule"] = ("all legal nestings of depth <= %d of 11 constructs (loop, while, for, block, if, match arm, try, try with a late throw, catch, call, function literal) around 7 exits (break, continue, return, throw, fatal error, return of a throwing operand, throw under a pending operand), each followed by code that prints "
+    ctx.coverage["rule"] = ("all legal nestings of depth <= %d of 11 constructs (loop, while, for, block, if, match arm, try, try with a late throw, catch, call, function literal) around 8 exits (break, continue, return, throw, fatal error, return of a throwing operand, throw under a pending operand, throw in expression position), each followed by code that prints "
                             "locals, re-enters loops and calls the function again; non-trivial = every case (each exercises an exit)"
                             % (2 if ctx.tier == "quick" else 3))
     ctx.coverage["traces_validated_against_impl"] = ctx.evaluations
